@@ -40,3 +40,64 @@ func GoodC08R10_counter(xs []string) int {
 	}
 	return n
 }
+
+// ---- C08-R11: a getter that answers nil for "there is none" ----
+
+type node struct {
+	name string
+	kids []*node
+}
+
+func (n *node) first() *node {
+	if len(n.kids) == 0 {
+		return nil
+	}
+	return n.kids[0]
+}
+
+// the getter's answer is used before the question "is there one" is settled
+func BadC08R11_derefFirst(n *node) bool {
+	return len(n.first().kids) == 0 && len(n.kids) == 1
+}
+
+func GoodC08R11_guarded(n *node) bool {
+	return len(n.kids) == 1 && len(n.first().kids) == 0
+}
+
+func GoodC08R11_nilChecked(n *node) string {
+	if f := n.first(); f != nil {
+		return f.name
+	}
+	return ""
+}
+
+// ---- C15-R14: a name cut as runes but measured in bytes ----
+
+func BadC15R14_byteWidth(t string, max int) string {
+	if len(t) <= max {
+		return t
+	}
+	r := []rune(t)
+	return string(r[:max-1]) + "…"
+}
+
+func GoodC15R14_runeWidth(t string, max int) string {
+	r := []rune(t)
+	if len(r) <= max {
+		return t
+	}
+	return string(r[:max-1]) + "…"
+}
+
+// ---- C08-R13: integer division by a computed value ----
+
+func BadC08R13_average(total int, xs []string) int {
+	return total / len(xs)
+}
+
+func GoodC08R13_guarded(total int, xs []string) int {
+	if len(xs) == 0 {
+		return 0
+	}
+	return total / len(xs)
+}
